@@ -256,20 +256,45 @@ impl Monitor for M {
             }
             _ => {
                 ctx.obs("chunks.stream_recovery");
-                let k = ctx.rng.range(1, if light { 3 } else { 12 }) as usize;
+                // mostly short streams; 1 in 12 is a buffer well beyond 64 KiB (hundreds of messages)
+                let long = !light && ctx.rng.chance(1, 12);
+                let k = if long { ctx.rng.range(600, 1800) } else { ctx.rng.range(1, if light { 3 } else { 12 }) } as usize;
+                if long {
+                    ctx.obs("stream.longer_than_64KiB");
+                }
                 let mut o = GenOpts::small();
                 o.force_storage = Some(true);
                 let mut buf: Vec<u8> = vec![];
                 let mut msgs = vec![];
                 let mut starts = vec![];
+                let mut lens = vec![];
                 for _ in 0..k {
                     let jl = ctx.rng.size(5, 60);
                     let j = gen_junk(&mut ctx.rng, jl);
                     buf.extend_from_slice(&j);
-                    let m = gen_msg(&mut ctx.rng, &o);
+                    let mut m = gen_msg(&mut ctx.rng, &o);
                     let e = ref_encode(&m);
+                    let mut bytes = e.bytes.clone();
+                    // 1 in 5 messages carries an id as real ECUs write them: bytes that are not UTF-8, or an
+                    // early NUL, in a 4-byte id field. The recovered message has the clean prefix (C19 rule).
+                    if ctx.rng.chance(1, 5) {
+                        let raw: [u8; 4] = *ctx.rng.pick(&[[b'E', b'C', 0xDC, b'1'], [b'A', 0xFF, 0, 0], [0, b'B', b'C', b'D'], [0xE4, b'B', b'C', 0], [b'A', b'B', 0xC3, 0], [b'A', 0, b'C', b'D'], [0xF0, 0x9F, 0x98, 0x80]]);
+                        let which = *ctx.rng.pick(&["storage.ecu", "std.ecu", "ext.apid", "ext.ctid"]);
+                        if let Some(f) = e.find(which) {
+                            bytes[f.start..f.end].copy_from_slice(&raw);
+                            let clean = String::from_utf8_lossy(crate::refcodec::field_value(&raw)).into_owned();
+                            match which {
+                                "storage.ecu" => m.storage_header.as_mut().unwrap().ecu_id = clean,
+                                "std.ecu" => m.header.ecu_id = Some(clean),
+                                "ext.apid" => m.extended_header.as_mut().unwrap().application_id = clean,
+                                _ => m.extended_header.as_mut().unwrap().context_id = clean,
+                            }
+                            ctx.obs("stream.message_with_dialect_id");
+                        }
+                    }
                     starts.push(buf.len());
-                    buf.extend_from_slice(&e.bytes);
+                    lens.push(bytes.len());
+                    buf.extend_from_slice(&bytes);
                     msgs.push(m);
                 }
                 let jl = ctx.rng.size(5, 30);
@@ -282,7 +307,7 @@ impl Monitor for M {
                     if find_pattern(&buf[pos..]).map(|p| p + pos) != Some(st) {
                         ok_layout = false;
                     }
-                    pos = st + ref_encode(&msgs[n]).bytes.len();
+                    pos = st + lens[n];
                 }
                 if !ok_layout {
                     ctx.obs("stream.skipped_accidental_pattern");
@@ -334,7 +359,7 @@ impl Monitor for M {
         let light = ctx.light();
         let ml = max_len(ctx.tier, light);
         super::describe(
-            &format!("search: exhaustive over all {} strings of length <= {} over {{D,L,T,01,x}}; random strings over that alphabet up to 4 KiB; buffers up to 256 KiB filled with partial patterns with the full pattern planted at the end / straddling 16,32,64,128,4096-byte block boundaries / twice / absent, searched from every start alignment 0..63. parse: junk lengths 0..=40 exhaustively per generated storage-header message (junk ending in '', D, DL, DLT; pattern-free by construction and re-checked with the naive search) plus junk up to 72000 bytes. stream: 1-12 messages with junk between, recovered by repeated parsing. distinct = (class, length bucket, first-occurrence bucket and alignment mod 64, partial-pattern count) resp. (junk length, junk tail, payload kind); non-trivial = input contains a partial or full pattern / junk is non-empty", n_strings(ml), ml),
+            &format!("search: exhaustive over all {} strings of length <= {} over {{D,L,T,01,x}}; random strings over that alphabet up to 4 KiB; buffers up to 256 KiB filled with partial patterns with the full pattern planted at the end / straddling 16,32,64,128,4096-byte block boundaries / twice / absent, searched from every start alignment 0..63. parse: junk lengths 0..=40 exhaustively per generated storage-header message (junk ending in '', D, DL, DLT; pattern-free by construction and re-checked with the naive search) plus junk up to 72000 bytes. stream: 1-12 messages (1 in 12 streams: 600-1800 messages, a buffer well beyond 64 KiB) with junk between, 1 in 5 messages with a dialect id field (non-UTF-8 bytes or an early NUL; the recovered id is the clean prefix), recovered by repeated parsing. distinct = (class, length bucket, first-occurrence bucket and alignment mod 64, partial-pattern count) resp. (junk length, junk tail, payload kind); non-trivial = input contains a partial or full pattern / junk is non-empty", n_strings(ml), ml),
             &["the naive 4-byte window scan is the reference for 'first occurrence'", "junk/message combinations in which an earlier pattern occurrence forms by accident are outside the quantifier and skipped (counted)"],
             &[("search.found_after_junk_ok", super::scaled(ctx, 5000)), ("search.absent_ok", super::scaled(ctx, 5000)), ("parse.junk_skipped_ok", super::scaled(ctx, 5000)), ("stream.recovered_ok", super::scaled(ctx, 300))],
         )
